@@ -82,7 +82,7 @@ Print Assumptions C11_concat_pieces_identity.
      forall t, process_info (m ++ t) = Ok mi, filt mi = Ok b, and
        io = true : mi_declared mi = length m
        io = false, b = true : full_ok m
-       io = false, b = false : hook mi = Ok tt, mi_consumed mi <= length m and no byte
+       io = false, b = false : mi_consumed mi <= length m and no byte
           'B' in m after the first mi_consumed mi bytes (the code advances over a
           non-matching message by the metadata-only decode's own length, i.e.
           sections 0..4; what is left is the stop signature '7777') *)
